@@ -39,7 +39,7 @@ safe Version [C03]
 
 /*@
 module gov
-props C17 C19 C20
+props C03 C17 C19 C20
 use common vote
 dialect neovm
 
